@@ -411,5 +411,38 @@ func extractSchemas(repo, root string) error {
 	}
 	sb.WriteString("def schemas : List RawMsg := [\n  " + strings.Join(names, ",\n  ") + "]\n\nend KV.Gen\n")
 	out := filepath.Join(root, "lean", "KafkaVerif", "Gen", "Schemas.lean")
-	return os.WriteFile(out, []byte(sb.String()), 0o644)
+	if err := os.WriteFile(out, []byte(sb.String()), 0o644); err != nil {
+		return err
+	}
+	// the drivers' list of message prototypes, in the same order as Gen.schemas (index = schema id)
+	var gb strings.Builder
+	gb.WriteString("// Code generated by /verif/go/extract (schemas); DO NOT EDIT.\n\npackage msgs\n\nimport (\n\t\"github.com/segmentio/kafka-go/protocol\"\n")
+	imported := map[string]bool{}
+	for _, m := range msgs {
+		pk, _ := splitRoot(m)
+		if !imported[pk] {
+			imported[pk] = true
+			fmt.Fprintf(&gb, "\t%q\n", "github.com/segmentio/kafka-go/protocol/"+pk)
+		}
+	}
+	gb.WriteString(")\n\n// All lists every type passed to protocol.Register / RegisterOverride.\nvar All = []Msg{\n")
+	for _, m := range msgs {
+		pk, name := splitRoot(m)
+		fmt.Fprintf(&gb, "\t{Pkg: %q, Root: %q, ApiKey: %d, IsRequest: %v, Override: %v, New: func() protocol.Message { return &%s.%s{} }},\n",
+			m.pkg, m.root, m.apiKey, m.isReq, m.override, pk, name)
+	}
+	gb.WriteString("}\n")
+	gdir := filepath.Join(root, "go", "internal", "msgs")
+	if err := os.MkdirAll(gdir, 0o755); err != nil {
+		return err
+	}
+	return os.WriteFile(filepath.Join(gdir, "msgs_gen.go"), []byte(gb.String()), 0o644)
+}
+
+// splitRoot returns the Go package and type name of a message's root struct.
+func splitRoot(m xMsg) (pkg, name string) {
+	if i := strings.IndexByte(m.root, '.'); i >= 0 {
+		return m.root[:i], m.root[i+1:]
+	}
+	return m.pkg, m.root
 }
